@@ -620,6 +620,23 @@ def build_scenarios(ck):
         for end in ("abort", "commit"):
             scs.append(gen_abort_reenqueued_scenario(rng, sid, ea, code=rng.choice([6, 3, 19]), end=end))
             sid += 1
+    # (f) one transaction commits the offsets of two or three consumer groups (send_offsets_to_transaction called once
+    #     per group).  The Coq model has one group per transaction: these runs are judged by the monitors only.
+    for j in range(ck.n(8, 60)):
+        sc = gen_scenario(rng, sid)
+        sid += 1
+        sc["instances"] = sc["instances"][:1]
+        some = False
+        for t in sc["instances"][0]["txns"]:
+            if not t.get("offsets"):
+                t["offsets"] = {"at": rng.choice(["before", "after", "concurrent"]), "items": None}
+            t["offsets"]["more_groups"] = ["g2"] if rng.random() < 0.7 else ["g2", "g3"]
+            some = True
+        number_offsets(sc)
+        sc["family"] = "several-groups"
+        sc["no_model"] = True
+        if some:
+            scs.append(sc)
     # (e) older broker releases that support transactions (0.11 .. 2.3: other versions of Produce, the five
     #     transactional APIs, FindCoordinator, Metadata)
     from simkit import profiles
@@ -785,6 +802,9 @@ def run(ck: Check):
         for t in r["txns"]:
             hist["outcomes"][t["outcome"]] = hist["outcomes"].get(t["outcome"], 0) + 1
         monitor(ck, sc, r, stats)
+        if sc.get("no_model"):
+            ck.count(key=("monitors-only", sc["id"], sc["seed"]), nontrivial=True)
+            continue
         evs = project(r)
         cases.append((sc, r, evs))
         appended = sum(1 for p in r["logs"].values() for b in p["batches"] if not b["control"])
